@@ -31,6 +31,8 @@ Print Assumptions C18_peerid_roundtrip.
    curve premises (33-byte compressed form; decompression inverts compression on public keys), are library /
    key-signer facts outside the proof; the correspondence check tests each of them per case on all three key
    signers of the repository with real handshake, bid and commitment signatures.  keccak is arbitrary. *)
+(* What is proved and what is premise: the proved content is padding + peer-id round trip + wiring; the three
+   bindings are premises (conjunct 3 is premise 2 composed with premise 3), honest and tested per case, not theorems. *)
 Theorem C18_coherent :
   forall (keccak : bytes -> bytes) (pub : N -> point) (compress : point -> bytes)
          (decompress : bytes -> option point)
@@ -201,7 +203,18 @@ Print Assumptions C18_honest_echo_accepted.
    a secp256k1 key: the ids of authenticated connections) with the same address under GetEthAddressFromPeerID
    are two different compressed public keys whose points have the same Keccak-derived address.  The premise is
    needed for the Go function, not for the model: ExtractPublicKey also accepts non-canonical encodings of one
-   key (65-byte uncompressed data, other field order), which [extract_pub] refuses. *)
+   key (65-byte uncompressed data, other field order), which [extract_pub] refuses.
+   Where the premise comes from: for every identity that libp2p.New of this code derives from a key - the node's own, and
+   every peer that runs this code - it is C18_host_id_canonical below (under the 33-byte premise on compression).  For an
+   arbitrary remote it stays an explicit premise (named in the level note): the security transport authenticates the id
+   peer.IDFromPublicKey computes from the remote's key, a canonical id for a secp256k1 key; for other key types
+   GetEthAddressFromPeerID answers an error, so no address arises. *)
+Theorem C18_host_id_canonical :
+  forall (pub : N -> point) (compress : point -> bytes) key_bytes pid,
+  (forall P, length (compress P) = 33%nat) -> host_id pub compress key_bytes = Some pid -> canonical pid.
+Proof. exact host_id_canonical. Qed.
+Print Assumptions C18_host_id_canonical.
+
 Theorem C18_identity_collision_is_key_collision :
   forall (keccak : bytes -> bytes) (decompress : bytes -> option point) p p' A,
   canonical p -> canonical p' ->
